@@ -7,7 +7,8 @@
    arm passes the location it got from `expr()` to the range check or the `Link` record it creates is not
    modelled; it is checked by the planted-fault oracle and the located-expression correspondence of
    lib/c14.py. *)
-From Az65 Require Import Base Token Expr CSpec ExprParse Utf8 Lexer LexerFacts Linker ExprLoc ExprLocFacts LinkLoc LinkLocFacts Trace TraceFacts.
+From Az65 Require Import Base Token Expr CSpec ExprParse Utf8 Lexer LexerFacts Linker ExprLoc ExprLocFacts LinkLoc LinkLocFacts Trace TraceFacts ExprLocGenFacts.
+From Az65.Gen Require Import ExprLocArms.
 
 (* (1) Positions, defined without the state machine: the character that follows a prefix q is on line
        1 + (number of line breaks in q), at column 1 + (number of characters of q after its last line
@@ -114,6 +115,24 @@ Theorem C14_started_source_adds_innermost_frame :
   forall st l fs, st <> [] -> trace st = Ok fs -> trace (sstep st (Push l)) = Ok (l :: fs).
 Proof. exact push_adds_innermost_frame. Qed.
 Print Assumptions C14_started_source_adds_innermost_frame.
+
+(* (13) Tie to the source: lib/gen_exprloc.py re-reads, on every run, which location each of expr_prec_0 .. 10 and each
+        arm of expr_prec_11 returns and which one is handed to symtab.touch (Gen/ExprLocArms.v); the table is the model's,
+        and the located parser follows it arm by arm. *)
+Theorem C14_generated_location_arms_are_the_models :
+  (forall a, gen_arm_loc a = model_arm_loc a) /\ (forall a, gen_touch_loc a = model_touch_loc a) /\
+  gen_level_loc = model_level_loc.
+Proof. exact generated_loc_arms_are_model_arms. Qed.
+Print Assumptions C14_generated_location_arms_are_the_models.
+
+Theorem C14_located_parser_follows_the_table :
+  forall f t l r e l' ms r' a,
+    arm_of t = Some a -> lp11 f ((t, l) :: r) = LOk e l' ms r' -> src_loc (gen_arm_loc a) l r l'.
+Proof.
+  intros f t l r e l' ms r' a Ha H. destruct generated_loc_arms_are_model_arms as [-> _].
+  exact (lp11_follows_table f t l r e l' ms r' a Ha H).
+Qed.
+Print Assumptions C14_located_parser_follows_the_table.
 
 (* non-vacuity: "nop" / line break / " @db" -- the directive is at 2:2, the first line break at 1:4 *)
 Example C14_example :
